@@ -362,9 +362,16 @@ func writeEvidence(verif, prop, tier string, seed int, outs []*oblOut, reps []*F
 	var samples []interface{}
 	var solverSecs, maxSecs float64
 	kinds := map[string]int{}
+	isKnown := map[string]bool{}
+	for _, k := range known {
+		isKnown[k] = true
+	}
 	for _, o := range outs {
 		if o.expect == "sat" {
 			continue
+		}
+		if isKnown[o.Name] && o.Status != "unsat" {
+			continue // an open finding: reported in known_findings_hit, not part of the claimed proof
 		}
 		nObl++
 		kinds[o.Kind]++
